@@ -20,6 +20,7 @@ import (
 	"net/http"
 	"net/http/httptest"
 	"os"
+	"os/exec"
 	"path/filepath"
 	"regexp"
 	"strings"
@@ -158,7 +159,7 @@ type Body struct {
 }
 
 type Step struct {
-	Kind string `json:"kind"` // setup: mkdag rec live unlive stubexit;  api: post create delete details
+	Kind string `json:"kind"` // setup: mkdag mkshow rec live unlive stubexit;  api: post create delete details;  exec: run the last spawned argv with the REAL binary
 	Name string `json:"name,omitempty"`
 	Text string `json:"text,omitempty"`
 	// rec
@@ -176,7 +177,15 @@ type Step struct {
 	Spawns [][]string `json:"spawns"`
 	Stops  []string   `json:"stops"`
 	Note   string     `json:"note,omitempty"`
-	Diff   []FileDiff `json:"diff"`
+	// exec: what the real `blackdagger start ...` run saw / recorded, and what a start with exactly the API's
+	// parameters must see (dag.Load in this process - independent of cmd/start.go)
+	Argv     []string `json:"argv,omitempty"`
+	Saw      string   `json:"saw"`
+	SawEnv   string   `json:"saw_env"`
+	Want     string   `json:"want"`
+	WantEnv  string   `json:"want_env"`
+	ExecNote string   `json:"exec_note,omitempty"`
+	Diff     []FileDiff `json:"diff"`
 	Dump   *Dump      `json:"dump,omitempty"`
 }
 
@@ -220,6 +229,8 @@ type env struct {
 	nspawn                  int
 	lg                      logger.Logger
 	raw, rawNow             map[[2]string][]string
+	lastSpawn               []string
+	lastParams              string
 }
 
 var apiSpec *loads.Document
@@ -475,6 +486,14 @@ func (e *env) apply(s *Step) {
 			s.Note = err.Error()
 			s.Code = 1
 		}
+	case "mkshow":
+		// a tiny DAG whose only step writes the parameters it sees ($1|$2|$NAME) to <root>/show.out
+		script := filepath.Join(e.root, "show.sh")
+		outf := filepath.Join(e.root, "show.out")
+		_ = os.WriteFile(script, []byte("#!/bin/sh\nprintf '%s|%s|%s' \"$(printenv 1)\" \"$(printenv 2)\" \"$(printenv NAME)\" > "+outf+"\n"), 0o755)
+		_ = os.WriteFile(filepath.Join(e.dags, s.Name+".yaml"), []byte("steps:\n  - name: show\n    command: "+script+"\n"), 0o644)
+	case "exec":
+		e.realRun(s)
 	case "rec":
 		db := jsondb.New(e.data, false)
 		s.Loc = e.loc(s.Name)
@@ -537,6 +556,10 @@ func (e *env) apply(s *Step) {
 	if len(all) > e.nspawn {
 		s.Spawns = all[e.nspawn:]
 		e.nspawn = len(all)
+		e.lastSpawn = s.Spawns[len(s.Spawns)-1]
+		if s.Body != nil {
+			e.lastParams = s.Body.Params
+		}
 	}
 	e.mu.Lock()
 	s.Stops = append(s.Stops, e.stops...)
@@ -567,6 +590,68 @@ func (e *env) apply(s *Step) {
 		}
 	}
 	e.raw = e.rawNow
+}
+
+// realRun executes the argv the API spawned last with the real binary (built from the tree under test) over a
+// data directory of its own, and reads back what the run recorded and what its step saw.
+func (e *env) realRun(s *Step) {
+	bin := os.Getenv("VERIF_BDBIN")
+	if bin == "" || len(e.lastSpawn) == 0 {
+		s.ExecNote = "skipped"
+		return
+	}
+	s.Argv = e.lastSpawn
+	loc := e.lastSpawn[len(e.lastSpawn)-1]
+	// reference: what a run started with exactly these parameters sees (the loader, in this process)
+	for _, k := range []string{"1", "2", "NAME"} {
+		_ = os.Unsetenv(k)
+	}
+	if d, err := dag.Load("", loc, e.lastParams); err == nil {
+		s.Want = strings.Join(d.Params, " ")
+		s.WantEnv = os.Getenv("1") + "|" + os.Getenv("2") + "|" + os.Getenv("NAME")
+	} else {
+		s.ExecNote = "reference load failed: " + err.Error()
+		return
+	}
+	for _, k := range []string{"1", "2", "NAME"} {
+		_ = os.Unsetenv(k)
+	}
+	realData := filepath.Join(e.root, "realdata")
+	outf := filepath.Join(e.root, "show.out")
+	_ = os.Remove(outf)
+	cmd := exec.Command(bin, e.lastSpawn...)
+	cmd.Dir = e.root
+	cmd.Env = append(os.Environ(), "HOME="+filepath.Join(e.root, "home"), "BLACKDAGGER_DATA_DIR="+realData,
+		"BLACKDAGGER_LOG_DIR="+filepath.Join(e.root, "reallog"), "BLACKDAGGER_DAGS_DIR="+e.dags,
+		"BLACKDAGGER_SUSPEND_FLAGS_DIR="+filepath.Join(e.root, "realsuspend"), "BLACKDAGGER_ADMIN_LOG_DIR="+filepath.Join(e.root, "realadmin"),
+		"BLACKDAGGER_BASE_CONFIG="+filepath.Join(e.root, "nobase.yaml"), "BLACKDAGGER_WORK_DIR="+e.root)
+	_ = os.MkdirAll(filepath.Join(e.root, "home"), 0o755)
+	done := make(chan error, 1)
+	var outb []byte
+	go func() {
+		var err error
+		outb, err = cmd.CombinedOutput()
+		done <- err
+	}()
+	select {
+	case err := <-done:
+		if err != nil {
+			s.ExecNote = "real run failed: " + err.Error() + " " + string(outb[max(0, len(outb)-300):])
+		}
+	case <-time.After(30 * time.Second):
+		_ = cmd.Process.Kill()
+		s.ExecNote = "real run timed out"
+	}
+	if rs := jsondb.New(realData, false).ReadStatusRecent(loc, 1); len(rs) == 1 {
+		s.Saw = rs[0].Status.Params
+	} else {
+		s.ExecNote += " no-recorded-status"
+	}
+	if b, err := os.ReadFile(outf); err == nil {
+		s.SawEnv = string(b)
+	} else {
+		s.ExecNote += " no-step-output"
+	}
 }
 
 func runCase(root string, pool []*Text, stub string, c *Case) {
@@ -820,6 +905,17 @@ func generated(tier string, rng *vh.Rng) []*Case {
 				{Kind: "mkdag", Name: "a", Text: t},
 				{Kind: "rec", Name: "a", Stamp: 1000, Lines: []Line{line(reqCur, 2, 2, 0)}, Closed: true},
 				post("a", Body{Action: sp(act), Value: "fresh", RequestID: reqCur, Step: "s1"})}})
+			k++
+		}
+	}
+	// accepted starts whose recorded argv is executed with the REAL binary: the run must see exactly the
+	// parameters given to the API (strings of the class C20_start_params covers, quoted values first / last)
+	if os.Getenv("VERIF_BDBIN") != "" {
+		for _, p := range []string{`NAME="a b"`, `"x y" z`, `p1 p2`, `NAME=v w`, `"q"`, `x "y z"`, `NAME="a b" "c d"`, `"a" "b"`, `A="1" NAME="n m"`, `plain`} {
+			cs = append(cs, &Case{K: k, Stream: "realrun", State: "never", Row: p, Steps: []Step{
+				{Kind: "mkshow", Name: "r"},
+				post("r", Body{Action: sp("start"), Params: p}),
+				{Kind: "exec", Name: "r"}}})
 			k++
 		}
 	}
